@@ -666,3 +666,7 @@ mod sync_layer_tests {
         assert_eq!(inputs[1].0.inp, 0); // default
     }
 }
+
+#[cfg(ggrs_verif)]
+#[path = "verif/sl.rs"]
+mod verif_sl;
